@@ -61,7 +61,8 @@ BUILTIN_EXCEPTIONS = [KeyError, ValueError, LookupError, AttributeError, TypeErr
 
 
 class World(object):
-    def __init__(self, seed, poison=False, raise_rate=0.1, raw_rate=0.3, sharing=False, force_raise=None):
+    def __init__(self, seed, poison=False, raise_rate=0.1, raw_rate=0.3, sharing=False, force_raise=None, hostile_rate=0.08):
+        self.hostile_rate = hostile_rate    # share of values whose == is not a plain bool
         self.force_raise = force_raise      # every input raises this exception type (for exhaustive tables)
         self.seed = seed
         self.poison = poison
@@ -88,6 +89,9 @@ class World(object):
             return ('raise', rng.choice(BUILTIN_EXCEPTIONS))
         g = Gen(rng, multi_sets=False)
         payload = g.value(2, sharing=self.sharing)
+        if rng.random() < self.hostile_rate:
+            from vlib.values import HostileEq
+            return ('value', HostileEq(tok='%s#%06x' % (name, h & 0xffffff), n=rng.randrange(5)))     # array-like value: == is not a bool
         if rng.random() < self.raw_rate:
             if rng.random() < 0.4:
                 payload = rng.choice([0, '', [], {}, False, None, (), 0.0, b'', set()])
@@ -323,9 +327,14 @@ def _gen_steps(rng, prog, o, vars_, n, top=False, prefix='v', decls=None):
         if not decls:
             break
         d = rng.choice(decls)
-        reps = rng.choice([1, 1, 1, 1, 2, 3, 11]) if d['io'] == 'out' else 1
+        # outputs are called repeatedly (per-alias ordinals); inputs are sometimes fetched again with the very same arguments
+        reps = rng.choice([1, 1, 1, 1, 2, 3, 11]) if d['io'] == 'out' else rng.choice([1, 1, 1, 1, 1, 2])
+        first = None
         for _ in range(reps):
             c = _gen_call(rng, prog, d, vars_, prefix=prefix)
+            if d['io'] == 'in' and first is not None:
+                c = dict(first, var='%s%d' % (prefix, next(_uid)))      # the same call again
+            first = first or c
             steps.append(c)
             vars_.append(c['var'])
     if top:
@@ -595,6 +604,12 @@ class Built(object):
                 ex = UserError('injected in body of ' + d['name'])
                 ev['raised'] = ex
                 raise ex
+            if built.consume('body_raise_unencodable'):
+                # an ordinary service exception that carries a live resource the serializer cannot handle
+                ex = UserError('injected in body of ' + d['name'])
+                ex.resource = Unencodable()
+                ev['raised'] = ex
+                raise ex
             if built.consume('body_raise_interrupt'):
                 ex = InterruptLike('injected in body of ' + d['name'])
                 ev['raised'] = ex
@@ -680,6 +695,16 @@ class Built(object):
         b = self.extractor_behaviour
         self.journal.add({'ev': 'extractor', 'behaviour': b})
         if b == 'ok':
+            return {'u_tag': tag, 'u_n': 3}
+        if b == 'ok_calls_output':
+            # the extractor (user code that runs after the operation has ended) uses an intercepted output itself, e.g. a metrics sink
+            outs = self.prog['outputs']
+            if outs:
+                d = outs[0]
+                try:
+                    self._call(d, ['from-the-extractor'] * d['nparams'], {}, nested=True)
+                except Exception:
+                    pass
             return {'u_tag': tag, 'u_n': 3}
         if b == 'raises':
             raise UserError('injected: metadata extractor fails')
@@ -795,7 +820,7 @@ class Built(object):
                 # 'badkey_key': the unencodable argument is part of an input's key, so the key cannot be built
                 self.fault_log.append((pos, 'badkey_key' if key_fails else 'badkey'))
             elif fault in ('handler_raises', 'resolver_raises', 'body_discard', 'body_force', 'body_raise_user',
-                           'body_raise_interrupt', 'value_unencodable'):
+                           'body_raise_interrupt', 'value_unencodable', 'body_raise_unencodable'):
                 self.arm(fault)
             try:
                 v = self._call(d, args, kwargs, nested)
